@@ -86,7 +86,7 @@ fn cons_list(t: &mut Tokens, cons: &[Cons], path: &str) {
             Cv::Int(v) => t.int(*v),
             Cv::Tag(x) => t.w(x),
         }
-        t.node(NK::Constraint, format!("{path}/cons:{i}"), s);
+        t.node(NK::Constraint, format!("{path}/c{i}"), s);
     }
 }
 
@@ -197,7 +197,7 @@ fn fields(t: &mut Tokens, fs: &[Field], path: &str) {
         if i > 0 {
             t.p(",");
         }
-        field(t, f, &format!("{path}/field:{i}"));
+        field(t, f, &format!("{path}/f{i}"));
     }
     t.p("}");
 }
@@ -206,9 +206,9 @@ pub fn tokens(d: &Desc) -> Tokens {
     let mut t = Tokens::default();
     t.kw(if d.big { "big_endian_packets" } else { "little_endian_packets" });
     t.node(NK::Endianness, "endianness".into(), 0);
-    for decl in &d.decls {
+    for (di, decl) in d.decls.iter().enumerate() {
         let s = t.toks.len();
-        let path = format!("decl:{}", decl.id());
+        let path = format!("d{di}");
         match decl {
             Decl::Enum { id, width, tags } => {
                 t.kw("enum");
@@ -243,7 +243,7 @@ pub fn tokens(d: &Desc) -> Tokens {
                                     t.w(sid);
                                     t.p("=");
                                     t.int(*sv);
-                                    t.node(NK::SubTag, format!("{path}/tag:{i}/sub:{j}"), ss);
+                                    t.node(NK::SubTag, format!("{path}/t{i}/s{j}"), ss);
                                 }
                                 t.p("}");
                             }
@@ -254,7 +254,7 @@ pub fn tokens(d: &Desc) -> Tokens {
                             t.p("..");
                         }
                     }
-                    t.node(NK::Tag, format!("{path}/tag:{i}"), ts);
+                    t.node(NK::Tag, format!("{path}/t{i}"), ts);
                 }
                 t.p("}");
             }
@@ -363,12 +363,9 @@ pub fn random_layout(t: &Tokens, s: &mut Src, trailing_commas: bool) -> Laid {
                 out.push_str(&txt);
             }
             TK::Modifier(m) => {
-                // "+" ~ intvalue, atomic, decimal only; leading zeros allowed
-                let z = s.below(3);
+                // "+" ~ intvalue, atomic; the AST keeps the modifier as written (a string), so it is
+                // spelled canonically here
                 out.push('+');
-                for _ in 0..(if z == 2 { 2 } else { 0 }) {
-                    out.push('0');
-                }
                 out.push_str(&m.to_string());
             }
             _ => out.push_str(&tok.text),
@@ -431,11 +428,12 @@ fn trailing_comma_legal(t: &Tokens, close: usize) -> bool {
 }
 
 fn spell_int(v: u64, s: &mut Src) -> (String, bool) {
-    match s.below(6) {
+    match s.below(7) {
         0 | 1 => (v.to_string(), false),
+        6 => (format!("0x00{v:x}"), true),
         2 => (format!("0x{v:x}"), true),
         3 => (format!("0x{v:X}"), true),
-        4 => (format!("0x00{v:x}"), true),
+        4 => (format!("0X{:x}", v), true),
         _ => (format!("00{v}"), false),
     }
 }
